@@ -43,4 +43,15 @@ def _plan(tier):
 
 
 def main(tier):
-    return simcheck.run("C20", tier, plan(tier), ORACLE)
+    from ..real import treereal
+    r = treereal.run_c20(tier)
+    viols = [dict(signature=sig, msg=msg, case=case) for sig, msg, case in r["violations"]]
+    return simcheck.run("C20", tier, plan(tier), ORACLE, extra_violations=viols,
+                        extra_cov=dict(real_lifecycles=dict(
+                            sequences=r["cases"], samples=r["samples"],
+                            rule="every single lifecycle kind and (quick: a fifth of / thorough: "
+                                 "all) ordered pairs of 7 kinds (plain clean/killed/broken/"
+                                 "timed-out, reusable clean/resized/broken-and-replaced) run "
+                                 "once and three times in one real process; /proc/self/fd, "
+                                 "threads, children incl. zombies and /dev/shm semaphores must "
+                                 "not grow")))
